@@ -1,5 +1,5 @@
 SPECIFICATION Spec
-CONSTANTS MaxLen = 4
+CONSTANTS MaxLen = 3
   MaxDepth = 2
   EmitAt = 0
 INVARIANTS WellFormed Emit
